@@ -90,7 +90,7 @@ typedef _Atomic long long atomic_llong;
 typedef _Atomic unsigned long long atomic_ullong;
 typedef _Atomic unsigned short atomic_char16_t;
 typedef _Atomic unsigned atomic_char32_t;
-typedef _Atomic unsigned atomic_wchar_t;
+typedef _Atomic int atomic_wchar_t;
 typedef _Atomic signed char atomic_int_least8_t;
 typedef _Atomic unsigned char atomic_uint_least8_t;
 typedef _Atomic short atomic_int_least16_t;
@@ -101,10 +101,10 @@ typedef _Atomic long atomic_int_least64_t;
 typedef _Atomic unsigned long atomic_uint_least64_t;
 typedef _Atomic signed char atomic_int_fast8_t;
 typedef _Atomic unsigned char atomic_uint_fast8_t;
-typedef _Atomic short atomic_int_fast16_t;
-typedef _Atomic unsigned short atomic_uint_fast16_t;
-typedef _Atomic int atomic_int_fast32_t;
-typedef _Atomic unsigned int atomic_uint_fast32_t;
+typedef _Atomic long atomic_int_fast16_t;
+typedef _Atomic unsigned long atomic_uint_fast16_t;
+typedef _Atomic long atomic_int_fast32_t;
+typedef _Atomic unsigned long atomic_uint_fast32_t;
 typedef _Atomic long atomic_int_fast64_t;
 typedef _Atomic unsigned long atomic_uint_fast64_t;
 typedef _Atomic long atomic_intptr_t;
